@@ -15,8 +15,8 @@ ASSUMPTIONS = ["clock not before 2000-01-01 (dtn_time_now underflows otherwise; 
 _B = {}
 
 
-def _bundle(hop=None, age=None, prev=True, t=1000, life=3600000, extra_first=False):
-    p = dict(ver=7, flags=0, crc=("N",), dst=("DTN", 1, b"//d/x"), src=("DTN", 1, b"//s/y"), rpt=("NONE", 1, 0), t=t, seq=0,
+def _bundle(hop=None, age=None, prev=True, t=1000, life=3600000, extra_first=False, seq=0):
+    p = dict(ver=7, flags=0, crc=("N",), dst=("DTN", 1, b"//d/x"), src=("DTN", 1, b"//s/y"), rpt=("NONE", 1, 0), t=t, seq=seq,
              life=life, foff=0, flen=0)
     cs = []
     n = 5
@@ -50,6 +50,11 @@ def corpus():
     out.append(_line(_bundle(age=U64 - 1, life=U64 - 1), 2000, NODE, 1))               # age + residence >= 2^64
     out.append(_line(_bundle(age=5, life=U64 - 1), 2000, NODE, 2 ** 128 - 1))          # u128 overflow of the sum
     out.append(_line(_bundle(t=U64 - 10, life=U64 - 1), 2000, ("IPN", 2, 1, 0), 0))    # creation + lifetime >= 2^64
+    # "no creation time" is about the TIME being 0, whatever the sequence number (a node without clock counts sequence numbers up)
+    for seq in (1, 40, U64 - 1):
+        out.append(_line(_bundle(t=0, seq=seq, life=1000), 5000, NODE, 0))
+        out.append(_line(_bundle(t=0, seq=seq, life=0, age=0), 2 ** 40, NODE, 0))
+    out.append(_line(_bundle(t=1, seq=0, life=1000), 5000, NODE, 0))
     return out
 
 
@@ -76,7 +81,7 @@ def cases(rng, tier):
         now = min(rng.choice(nows), U64 - 1 - OFFSET)
         hop = rng.choice([None, None, (32, 1), (rng.randrange(256), rng.randrange(256)), (255, 254), (255, 255), (0, 0)])
         node = rng.choice([NODE, ("IPN", 2, 23, 0), ("NONE", 1, 0)])
-        out.append(_line(_bundle(hop=hop, age=age, prev=rng.random() < 0.6, t=t, life=L), now, node, rt))
+        out.append(_line(_bundle(hop=hop, age=age, prev=rng.random() < 0.6, t=t, life=L, seq=rng.choice([0, 0, 1, 40, U64 - 1, rnd_u64(rng)])), now, node, rt))
     return out
 
 
